@@ -19,8 +19,10 @@ PART = {
                         "attribution evidence: kyber VerifyBeacon, byte equality of keys/hashes, head/clock ranges sampled in-process around the request",
                         "pairs (known id, unknown or malformed hash) may be refused or served by the chain the id names (both accepted)",
                         "requests that straddle the stop/load call are judged under both 'Z running' and 'Z stopped'"],
-        "race_anchors": ["beaconExists", "KeypairFor", "readBeaconID", "getBeaconProcessByID", "RemoveBeaconProcess", "InstantiateBeaconProcess",
-                         "AddBeaconHandler", "RemoveBeaconHandler", "ListBeaconIDs", "(*DrandHandler)"],
+        # substrings of frames that touch the routing tables (DrandDaemon.beaconProcesses / chainHashes, BeaconProcess.group as read
+        # by readBeaconID, DrandHandler.beacons); the first one found in a report names the signature C19/race/<anchor>
+        "race_anchors": ["beaconExists", "KeypairFor", "(*DrandHandler).ChainHashes", "readBeaconID", "getBeaconProcessByID", "RemoveBeaconProcess",
+                         "InstantiateBeaconProcess", "AddBeaconHandler", "RemoveBeaconHandler", "ListBeaconIDs", "(*DrandHandler)"],
     },
     "C14": {
         "runs": [
